@@ -23,8 +23,18 @@ class HistCase:
         self.prop, self.prof, self.classes, self.nontrivial, self.hook, self.keyfilter = prop, prof, classes, nontrivial, hook, keyfilter
 
     def __call__(self, seed, ops=None, hook=None):
+        prog = None
+        fixed = None
+        if isinstance(seed, (tuple, list)) and seed[0] == 'fixed':
+            from . import fixedhist
+            fixed = seed[1]
+            prog, ops = fixedhist.SCENARIOS[fixed]()
+            seed = 0
         prof = self.prof(seed) if callable(self.prof) else self.prof
-        r = histrun.run_history(seed, prof, tag=self.prop.lower(), hook=hook or self.hook, ops=ops, verif_log=bool(self.hook))
+        r = histrun.run_history(seed, prof, tag=self.prop.lower(), hook=hook or self.hook, ops=ops, verif_log=bool(self.hook), prog=prog)
+        if fixed:
+            r['seed'] = ['fixed', fixed]
+            seed = ['fixed', fixed]
         mine = [a for a in r['anoms'] if a['cls'] in self.classes and (self.keyfilter is None or self.keyfilter(a))]
         other = [a for a in r['anoms'] if a not in mine]
         shape = common.shash([r['shape'], op_shape(r['hist'])])
@@ -46,6 +56,8 @@ class HistCase:
 def run(prop, tier, case, seeds, level, rule, assumptions, budget_s, floor=8, extra=None):
     col = Collector(prop, tier, level, rule, assumptions, floor=floor)
     deadline = time.time() + budget_s
+    from . import fixedhist
+    seeds = [('fixed', n) for n in sorted(fixedhist.SCENARIOS)] + list(seeds)
     for r in common.pmap(case, seeds, deadline=deadline):
         col.add(r)
     rc = col.finish(extra_coverage=extra)
